@@ -39,7 +39,8 @@ def summary_form(func, env0=None):
         left = []
         for p_ in params:
             v = sm.env.get("@" + p_, sm.env.get(p_))
-            if v is not None and any(isinstance(c_, ast.Call) and (getattr(c_.func, "id", "") or "").startswith("__") for c_ in ast.walk(v)):
+            if v is not None and (any(isinstance(c_, ast.Call) and (getattr(c_.func, "id", "") or "").startswith("__") for c_ in ast.walk(v))
+                                  or "@" + p_ in sm.env and not (isinstance(v, ast.Name) and v.id == p_)):
                 left.append((p_, repr(canon(v))))
         return canon(sm.result), tuple(sorted((repr(canon(g)) for g in sm.guards))), tuple(left)
     except Exception:
